@@ -130,8 +130,6 @@ def Unproved : List String :=
    "UniqueVariableNamesChecker", "NoUndefinedVariablesChecker", "NoUnusedVariablesChecker",
    "KnownDirectivesChecker", "KnownArgumentNamesChecker", "ValuesOfCorrectTypeChecker",
    "ProvidedRequiredArgumentsChecker", "VariablesInAllowedPositionChecker",
-   "OverlappingFieldsCanBeMergedChecker", "UniqueInputFieldNamesChecker", "KnownFragmentNamesChecker",
-   "UniqueFragmentNamesChecker", "UniqueOperationNameChecker", "ExecutableDefinitionsChecker",
-   "LoneAnonymousOperationChecker"]
+   "OverlappingFieldsCanBeMergedChecker", "UniqueInputFieldNamesChecker"]
 
 end PyGql.Validate.Spec
